@@ -23,6 +23,8 @@ struct Layout {
     mohd_offs: Vec<usize>,
     containers: HashMap<String, usize>,
     elem: HashMap<String, usize>,
+    mobn: HashMap<String, usize>,
+    mopr: HashMap<String, usize>,
     momt_tex1: usize,
     momt_tex2: usize,
     mogi_name: usize,
@@ -38,7 +40,17 @@ fn layout_from(c: &Value) -> Layout {
     for (k, v) in c["elem"].as_object().unwrap_or_else(|| tool_error("layout.elem")) {
         elem.insert(k.clone(), v.as_u64().unwrap() as usize);
     }
+    let mut mobn = HashMap::new();
+    for (k, v) in c["mobn"].as_object().unwrap_or_else(|| tool_error("layout.mobn")) {
+        mobn.insert(k.clone(), v.as_u64().unwrap() as usize);
+    }
+    let mut mopr = HashMap::new();
+    for (k, v) in c["mopr"].as_object().unwrap_or_else(|| tool_error("layout.mopr")) {
+        mopr.insert(k.clone(), v.as_u64().unwrap() as usize);
+    }
     Layout {
+        mobn,
+        mopr,
         mohd_fields: ga(c, "mohd_fields").iter().map(|x| x.as_str().unwrap().to_string()).collect(),
         mohd_offs: ga(c, "mohd_offs").iter().map(|x| x.as_u64().unwrap() as usize).collect(),
         containers,
@@ -210,9 +222,15 @@ fn build_root(c: &Value, g: &mut Gen) -> WmoRoot {
     let portals: Vec<WmoPortal> = (0..n("nport"))
         .map(|i| WmoPortal { vertices: if (pvpat >> i) & 1 == 1 { (0..npv).map(|_| g.v3()).collect() } else { Vec::new() }, normal: g.v3() })
         .collect();
-    let portal_references: Vec<WmoPortalReference> = (0..n("npref"))
-        .map(|_| WmoPortalReference { portal_index: g.u16(), group_index: g.u16(), side: g.u16() & 1 })
-        .collect();
+    let prefs: Vec<Vec<i64>> = c.get("prefs").and_then(|x| x.as_array()).map(|rows| {
+        rows.iter().map(|r| r.as_array().map(|a| a.iter().map(|v| v.as_i64().unwrap_or(0)).collect()).unwrap_or_default()).collect()
+    }).unwrap_or_default();
+    let portal_references: Vec<WmoPortalReference> = if !prefs.is_empty() {
+        // a structurally valid portal graph enumerated by the specification: [portal, group, side]
+        prefs.iter().map(|r| WmoPortalReference { portal_index: r[0] as u16, group_index: r[1] as u16, side: r[2] as u16 }).collect()
+    } else {
+        (0..n("npref")).map(|_| WmoPortalReference { portal_index: g.u16(), group_index: g.u16(), side: g.u16() & 1 }).collect()
+    };
     let (vbl, vblpat) = (n("vbl"), gi(c, "vblpat"));
     let visible_block_lists: Vec<Vec<u16>> = (0..n("nvbl"))
         .map(|i| if (vblpat >> i) & 1 == 1 { (0..vbl).map(|_| g.u16()).collect() } else { Vec::new() })
@@ -346,7 +364,16 @@ fn build_group(c: &Value, g: &mut Gen) -> WmoGroup {
             }
         })
         .collect();
-    let bsp_nodes = if opt("nbsp") {
+    let tree: Vec<Vec<i64>> = c.get("bsp").and_then(|x| x.as_array()).map(|rows| {
+        rows.iter().map(|r| r.as_array().map(|a| a.iter().map(|v| v.as_i64().unwrap_or(0)).collect()).unwrap_or_default()).collect()
+    }).unwrap_or_default();
+    let bsp_nodes = if !tree.is_empty() {
+        // a well-formed tree enumerated by the specification: [axis, leaf, neg, pos, nfaces, fstart]
+        Some(tree.iter().map(|r| {
+            let normal = match r[0] { 0 => Vec3 { x: 1.0, y: 0.0, z: 0.0 }, 1 => Vec3 { x: 0.0, y: 1.0, z: 0.0 }, _ => Vec3 { x: 0.0, y: 0.0, z: 1.0 } };
+            WmoBspNode { plane: WmoPlane { normal, distance: g.f() }, children: [r[2] as i16, r[3] as i16], first_face: r[5] as u16, num_faces: r[4] as u16 }
+        }).collect())
+    } else if opt("nbsp") {
         Some(
             (0..cnt("nbsp"))
                 .map(|i| {
@@ -514,6 +541,25 @@ fn group_api_tokens_in(g: &WmoGroup) -> Toks {
         g.vertex_colors.clone().unwrap_or_default().iter().map(|c| [c.b, c.g, c.r, c.a]).collect();
     t.insert("vertex_colors", dtok(&cols));
     t.insert("doodad_refs", dtok(&g.doodad_refs.clone().unwrap_or_default()));
+    let bb = &g.header.bounding_box;
+    t.insert("ghdr", dtok(&(g.header.name_offset, g.header.flags.bits(), v3bits(&bb.min), v3bits(&bb.max))));
+    t.insert("batch_count", dtok(&(g.batches.len() as u32)));
+    t.insert(
+        "batches",
+        dtok(&g.batches.iter().map(|b| (b.start_index, b.count, b.start_vertex, b.end_vertex, b.material_id as u8)).collect::<Vec<_>>()),
+    );
+    // BSP nodes: split axis (index of the dominant normal component; BSP planes of the format are
+    // axis aligned), children, face range, plane distance
+    let axis = |n: &Vec3| {
+        let (x, y, z) = (n.x.abs(), n.y.abs(), n.z.abs());
+        if x >= y && x >= z { 0u16 } else if y >= z { 1 } else { 2 }
+    };
+    t.insert(
+        "bsp_nodes",
+        dtok(&g.bsp_nodes.clone().unwrap_or_default().iter()
+            .map(|n| (axis(&n.plane.normal), n.children[0], n.children[1], n.num_faces, n.first_face as u32, n.plane.distance.to_bits()))
+            .collect::<Vec<_>>()),
+    );
     t
 }
 fn group_api_tokens_out(g: &wow_wmo::group_parser::WmoGroup) -> Toks {
@@ -524,6 +570,18 @@ fn group_api_tokens_out(g: &wow_wmo::group_parser::WmoGroup) -> Toks {
     t.insert("tex_coords", dtok(&g.texture_coords.iter().map(|c| [c.u.to_bits(), c.v.to_bits()]).collect::<Vec<_>>()));
     t.insert("vertex_colors", dtok(&g.vertex_colors.iter().map(|c| [c.b, c.g, c.r, c.a]).collect::<Vec<_>>()));
     t.insert("doodad_refs", dtok(&g.doodad_refs));
+    let bb: Vec<u32> = g.bounding_box.iter().map(|f| f.to_bits()).collect();
+    let (mn, mx) = if bb.len() == 6 { ([bb[0], bb[1], bb[2]], [bb[3], bb[4], bb[5]]) } else { ([0; 3], [0; 3]) };
+    t.insert("ghdr", dtok(&(g.group_name_index, g.flags, mn, mx)));
+    t.insert("batch_count", dtok(&(g.trans_batch_count as u32 + g.int_batch_count as u32 + g.ext_batch_count as u32)));
+    t.insert(
+        "batches",
+        dtok(&g.render_batches.iter().map(|b| (b.start_index, b.count, b.min_index, b.max_index, b.material_id)).collect::<Vec<_>>()),
+    );
+    t.insert(
+        "bsp_nodes",
+        dtok(&g.bsp_nodes.iter().map(|n| (n.flags & 3, n.neg_child, n.pos_child, n.n_faces, n.face_start, n.plane_distance.to_bits())).collect::<Vec<_>>()),
+    );
     t
 }
 fn f3(v: &Vec3) -> [u32; 3] {
@@ -719,6 +777,41 @@ fn layout_events(case: &str, bytes: &[u8], lay: &Layout, lens: &BTreeMap<&str, u
     let brk = brk.unwrap_or_default();
     evs.push(json!({"ev":"Chunks","case":case,"len":bytes.len(),"brk":brk,
         "cs": cs.iter().map(|c| json!({"tag":c.tag,"off":c.off,"size":c.size,"depth":c.depth})).collect::<Vec<_>>()}));
+    if lens.is_empty() {
+        // group file: the MOBN records, read with the field offsets of the specification
+        let e = lay.elem.get("MOBN").copied().unwrap_or(16);
+        let f = |k: &str| lay.mobn.get(k).copied().unwrap_or(0);
+        let nodes: Vec<Value> = match find(&cs, "MOBN") {
+            None => vec![],
+            Some(c) => {
+                let p = payload(bytes, c);
+                (0..p.len() / e).map(|i| {
+                    let r = &p[i * e..(i + 1) * e];
+                    let u16at = |o: usize| u16::from_le_bytes([r[o], r[o + 1]]);
+                    json!([u16at(f("flags")), u16at(f("neg")) as i16, u16at(f("pos")) as i16, u16at(f("nfaces")),
+                           rd32(r, f("fstart")).unwrap_or(0).min(0x3FFF_FFFF)])
+                }).collect()
+            }
+        };
+        evs.push(json!({"ev":"Bsp","case":case,"nodes":nodes}));
+    }
+    if !lens.is_empty() {
+        // root file: the MOPR records, read with the field offsets of the specification
+        let e = lay.elem.get("MOPR").copied().unwrap_or(8);
+        let f = |k: &str| lay.mopr.get(k).copied().unwrap_or(0);
+        let refs: Vec<Value> = match find(&cs, "MOPR") {
+            None => vec![],
+            Some(c) => {
+                let p = payload(bytes, c);
+                (0..p.len() / e).map(|i| {
+                    let r = &p[i * e..(i + 1) * e];
+                    let u16at = |o: usize| u16::from_le_bytes([r[o], r[o + 1]]);
+                    json!([u16at(f("portal")), u16at(f("group")), u16at(f("side")) as i16])
+                }).collect()
+            }
+        };
+        evs.push(json!({"ev":"PortalRefs","case":case,"refs":refs}));
+    }
     if !lens.is_empty() {
         // MOHD counts against list lengths and record counts
         let mohd = find(&cs, "MOHD");
